@@ -586,6 +586,51 @@ func TestC11(t *testing.T) {
 		}
 	}
 
+	// wide squares: under the real layout rules namespace padding only precedes blobs of more than 64
+	// shares, so "[X][padding][Y][Z] of one namespace inside one row" needs an ODS width of 128
+	// (added after seeded change C11-b was missed)
+	{
+		nWide := vkit.Scale(2, 8)
+		var wide []*vkit.Block
+		for k := 0; k < nWide; k++ {
+			r := rng.SplitN("wide", k)
+			nsA := vkit.MkNamespace(uint64(5000 + 10*k))
+			nsB := vkit.MkNamespace(uint64(5005 + 10*k))
+			var txs [][]*libshare.Blob
+			// X: 1 or 2 shares, Y: 66..120 shares (aligned to its subtree width, hence padding), Z, then again
+			txs = append(txs, []*libshare.Blob{vkit.GenBlob(r, nsA, 0, vkit.BlobDataLen(0, 1+k%2, r.Intn(100)))})
+			txs = append(txs, []*libshare.Blob{vkit.GenBlob(r, nsA, 0, vkit.BlobDataLen(0, r.Range(66, 120), r.Intn(300)))})
+			txs = append(txs, []*libshare.Blob{vkit.GenBlob(r, nsA, uint8(k%2), vkit.BlobDataLen(uint8(k%2), r.Range(1, 3), r.Intn(100)))})
+			txs = append(txs, []*libshare.Blob{vkit.GenBlob(r, nsA, 0, vkit.BlobDataLen(0, r.Range(130, 200), r.Intn(300))),
+				vkit.GenBlob(r, nsA, 0, vkit.BlobDataLen(0, 1, 0))})
+			// filler in a later namespace pushes the square to width 128 (> 4096 shares)
+			for f := 0; f < 9; f++ {
+				txs = append(txs, []*libshare.Blob{vkit.GenBlob(r, nsB, 0, vkit.BlobDataLen(0, r.Range(470, 520), r.Intn(300)))})
+			}
+			blk := vkit.BuildBlock(uint64(nBlocks+10+k), nil, txs, r)
+			if err := st.PutODSQ4(ctx, blk.Sq.Roots, blk.Height, blk.EDS); err != nil {
+				run.Inconclusive(fmt.Sprintf("store put of wide block failed: %v", err))
+				continue
+			}
+			headers.Store(blk.Height, blk.Header)
+			run.Count("blocks", 1)
+			run.Count("blocks/wide", 1)
+			run.Count(fmt.Sprintf("blocks/width/%d", blk.W), 1)
+			run.Count("blobs", len(blk.Blobs))
+			wide = append(wide, blk)
+		}
+		var wg sync.WaitGroup
+		for k, blk := range wide {
+			wg.Add(1)
+			go func(k int, blk *vkit.Block) {
+				defer wg.Done()
+				c.checkBlock(ctx, rng.SplitN("wide-check", k), storeEnv, blk)
+			}(k, blk)
+		}
+		wg.Wait()
+		run.Require("blocks/width/128", 1)
+	}
+
 	run.Require("blocks", vkit.Scale(300, 4000))
 	run.Require("GetAll/present-ns/equal", 300)
 	run.Require("GetAll/absent-ns/equal", 300)
